@@ -177,6 +177,7 @@ def answer (c : Dag) (q : String) : String :=
     | none => "x:?"
     | some e => "x:" ++ exceptStr (fun l => emp (String.intercalate "." (sortStrs (l.map Edge.str)))) (c.findIncompatibleEdges e)
   | ["l", ls] => "l:" ++ emp (String.intercalate "." (sortStrs ((c.getNodeByLabels (starList '.' ls)).map NodeId.str)))
+  | ["e", ls] => "e:" ++ emp (String.intercalate "." (sortStrs ((c.getNodeExcludeLabels (starList '.' ls)).map NodeId.str)))
   | ["m"] => "m:" ++ metricsStr c
   | ["n"] => "n:" ++ metricsStr c false
   | _ => "?"
